@@ -42,8 +42,8 @@ def ready (done : List Nat) (s : Stage) : Bool := s.reqs.all (fun r => done.cont
 
 /-- The `while unsorted_ids:` loop.  `acc` = the layers emitted so far (`sorted_stages`, kept per
     round), `ref_ids` = the refs of everything in `acc`.  One round takes *every* sortable stage.
-    Fuel = number of rounds allowed; `unsorted.length` always suffices (`Lemmas.C20Topo.kahn_fuel`),
-    the `0` branch with work left is therefore unreachable from `toposortLayers`. -/
+    Fuel = number of rounds allowed; `unsorted.length` always suffices (hypothesis `u.length ≤ n` of
+    `Lemmas.C20Topo.kahn_error`), the `0` branch with work left is unreachable from `toposortLayers`. -/
 def kahn : Nat → List Stage → List (List Stage) → Except (List Stage) (List (List Stage))
   | _, [], acc => .ok acc
   | 0, u :: us, _ => .error (u :: us)
